@@ -77,4 +77,30 @@ theorem ctx_main (cfg : Cfg) (toks : List Token) (strict : Prop)
           (allKnown_hasBases (hy hs hd)) hres
   round := fun a args ha hargs => sat_round cfg _ _ args (fun _ => loc_span ha) hargs
 
+/-- Units stay units of the table (no claim about errors). -/
+theorem ctx_known (cfg : Cfg) (hdb : DbKnown cfg.db) :
+    Ctx cfg (fun _ => True) (fun _ => True) (fun u => known u = true) AllKnown where
+  kids := fun _ _ _ _ => trivial
+  perr := fun _ _ _ => trivial
+  unsup := fun _ => trivial
+  unil := allKnown_nil
+  upow := fun _ n h => allKnown_checkedPow h n
+  kparse := fun _ _ _ _ h => parse_known h
+  uupd := fun _ _ _ _ _ hc hk hupd => allKnown_update hc hk hupd
+  udb := hdb
+  umul := by
+    intro x y div l r hx hy
+    split
+    · rename_i res hres
+      exact allKnown_mul _ _ _ _ _ _ hx hy res hres
+    · trivial
+    · trivial
+  round := fun a args _ hargs => sat_round cfg _ _ args (fun _ => trivial) hargs
+
+/-- `eval::unit` only builds compounds of known units. -/
+theorem unit_known (kids : List At) (d : List Desc) (c : Compound)
+    (h : (unit kids d).1 = .ok c) : AllKnown c :=
+  (sat_unit (ctx_known { db := fun _ => .nothing } (fun _ _ hh => by cases hh)) kids
+    (fun _ _ => trivial) d).2 c h
+
 end Anything.Eval
